@@ -9,7 +9,10 @@ use super::{
     },
     style::FoldStyle,
     table,
-    util::{get_parenthesized_args_untyped, has_parenthesized_args, is_only_one_and},
+    util::{
+        ends_with_linebreak, get_parenthesized_args_untyped, has_parenthesized_args,
+        is_only_one_and,
+    },
     ArenaDoc, Context, Mode, PrettyPrinter,
 };
 use crate::ext::StrExt;
@@ -156,16 +159,25 @@ impl<'a> PrettyPrinter<'a> {
             let range = if i <= j { i..j + 1 } else { 0..0 };
             children[range].iter()
         };
+        // A line-break backslash at the very end needs a blank, or it would escape the parenthesis.
+        let trailing_linebreak = children.clone().last().is_some_and(ends_with_linebreak);
 
         let mut peek_hashed_arg = false;
+        let mut after_linebreak = false;
         let inner = self.convert_flow_like_iter(ctx, children, |ctx, child| {
             let at_hashed_arg = peek_hashed_arg;
             peek_hashed_arg = false;
+            // Likewise a separator directly behind a line-break backslash would be escaped.
+            let at_linebreak = after_linebreak;
+            if child.kind() != SyntaxKind::Space {
+                after_linebreak = ends_with_linebreak(child);
+            }
             match child.kind() {
+                SyntaxKind::Comma if at_linebreak => FlowItem::spaced(self.arena.text(",")),
                 SyntaxKind::Comma => FlowItem::tight_spaced(self.arena.text(",")),
                 SyntaxKind::Semicolon => {
                     // We should avoid the semicolon counted the terminator of the previous hashed arg.
-                    FlowItem::new(self.arena.text(";"), at_hashed_arg, true)
+                    FlowItem::new(self.arena.text(";"), at_hashed_arg || at_linebreak, true)
                 }
                 SyntaxKind::Space => {
                     peek_hashed_arg = at_hashed_arg;
@@ -187,6 +199,11 @@ impl<'a> PrettyPrinter<'a> {
                 }
             }
         });
+        let inner = if trailing_linebreak {
+            inner + self.arena.space()
+        } else {
+            inner
+        };
         if self.attr_store.is_multiline(args.to_untyped()) {
             ((self.arena.line_() + inner).nest(self.config.tab_spaces as isize)
                 + self.arena.line_())
